@@ -228,24 +228,29 @@ pub proof fn lemma_drc_init<P: Prefix, T>(m0: PrefixMap<P, T>, cur: PrefixMap<P,
         chd(cur.tab(), p, s).is_none() && chd(cur.tab(), p, !s) == chd(m0.tab(), p, !s), // [SHAPE]
     ensures drc_inv(m0, cur, st, ISet::<int>::empty(), p, s, c)
 {
-    reveal(drc_a);
-    reveal(drc_b1);
-    reveal(drc_b2);
-    reveal(drc_b3);
-    reveal(drc_b4);
     let t0 = m0.tab(); let l0 = m0.live(); let x = kb(t0, c);
-    lemma_glob(t0, l0);
-    assert(child_ok(t0, l0, p, s));
+    lemma_pre_refl(kb(t0, p));
+    lemma_step(t0, l0, p, kb(t0, p));
+    assert(l0.contains(c));
     assert(cur.live() =~= l0);
     lemma_pre_refl(x);
-    // count: only links of p changed
-    assert forall|i: int| 0 <= i implies ind(t0, l0, i) == ind(cur.tab(), cur.live(), i) by {
-        if l0.contains(i) && i != p { assert(cur.tab()[i] == t0[i]); }
+    assert(drc_a(m0, cur, ISet::<int>::empty(), p, s, c)) by {
+        reveal(drc_a);
+        assert forall|i: int| 0 <= i implies ind(t0, l0, i) == ind(cur.tab(), cur.live(), i) by {
+            if l0.contains(i) && i != p { assert(cur.tab()[i] == t0[i]); }
+        }
+        lemma_nval_ext(t0, l0, t0.len() as int, cur.tab(), cur.live(), cur.tab().len() as int, -1);
     }
-    lemma_nval_ext(t0, l0, t0.len() as int, cur.tab(), cur.live(), cur.tab().len() as int, -1);
-    assert forall|n: int| l0.contains(n) && pre(x, kb(t0, n)) implies exists|k: int| 0 <= k < st.len() && pre(kb(t0, #[trigger] st[k] as int), kb(t0, n)) by {
-        assert(st[0] as int == c);
+    assert(st[0] as int == c);
+    assert(drc_b1(m0, st, ISet::<int>::empty(), c)) by { reveal(drc_b1); }
+    assert(drc_b2(m0, st)) by { reveal(drc_b2); }
+    assert(drc_b3(m0, st, ISet::<int>::empty(), c)) by {
+        reveal(drc_b3);
+        assert forall|n: int| l0.contains(n) && pre(x, kb(t0, n)) implies exists|k: int| 0 <= k < st.len() && pre(kb(t0, #[trigger] st[k] as int), kb(t0, n)) by {
+            assert(pre(kb(t0, st[0] as int), kb(t0, n)));
+        }
     }
+    assert(drc_b4(m0, st, ISet::<int>::empty())) by { reveal(drc_b4); }
 }
 
 /// facts the loop body needs about the node it has just popped
